@@ -279,7 +279,8 @@ def simple_table_check(parts, assumptions, required=(), world=False):
                 tb = table_run(pid, p["module"], p["sub"], tier, seed, wd, p["prefixes"], p["sig"], need=p.get("need"), binp=binp, label=p.get("label"),
                                harness_args=["-world", "world.json"] if world else ())
                 for k in p.get("required", ()):
-                    if not tb["coverage"].get(k) and not tb.get("crashed"):
+                    # a kind of observation that is missing while a rule of this table already fails is a symptom of that failure, not vacuity
+                    if not tb["coverage"].get(k) and not tb.get("crashed") and not tb["viols"]:
                         raise Inconclusive(f"vacuous table run ({p['module']}): no observation {k}; have {sorted(tb['coverage'])[:40]}")
                 tbs.append(tb)
                 viols += tb["viols"]
@@ -411,7 +412,8 @@ def composed_check(fam_pid, parts, assumptions, world=False, extra=()):
                 tb = table_run(pid, p["module"], p["sub"], tier, seed, wd, p["prefixes"], p["sig"], need=p.get("need"), label=p.get("label"),
                                harness_args=["-world", "world.json"] if world else ())
                 for k in p.get("required", ()):
-                    if not tb["coverage"].get(k) and not tb.get("crashed"):
+                    # a kind of observation that is missing while a rule of this table already fails is a symptom of that failure, not vacuity
+                    if not tb["coverage"].get(k) and not tb.get("crashed") and not tb["viols"]:
                         raise Inconclusive(f"vacuous table run ({p['module']}): no observation {k}; have {sorted(tb['coverage'])[:40]}")
                 tbs.append(tb)
                 viols += tb["viols"]
